@@ -335,7 +335,14 @@ Section Model.
   Definition solver_run (c : cls) (o : opts) (e : eops) (m_ops : list op)
              (s0 : S) (tlist : list T) : outcome result :=
     match tlist with
-    | [] => Raise IndexError
+    | [] =>
+        (* Solver.run / FMESolver.run read tlist[0] (set_state) before the
+           result object is built; MultiTrajSolver._initialize_run_one_traj
+           (CStoch) builds the result first *)
+        match c, new_result c o e m_ops with
+        | CStoch, Raise x => Raise x
+        | _, _ => Raise IndexError
+        end
     | t0 :: rest =>
         let d0 := prepare s0 in
         let i := set_state t0 d0 in
